@@ -158,10 +158,11 @@ Definition frame_is_tcp (f : bytes) : bool :=
   | _ => false
   end.
 
-(* closed form for a flood of identical SYNs within 30 s (Proofs.flood_closed_form): the
-   first c_cap copies open a connection, every further one is dropped (table full);
-   the frames after the flood are not TCP and do not look at the table
-   (Proofs.rx_non_tcp_table_indep) *)
+(* a flood of identical SYNs, at ANY pace (Proofs.flood_any_timing_empty: slots idle for
+   more than 30 s may be taken over, the expectation does not depend on how long the
+   machine took): never fatal, min(n, c_cap) slots occupied; the frames after the flood are
+   not TCP and do not look at the table (Proofs.rx_non_tcp_table_indep).  h_span is
+   evidence only. *)
 Definition model_hist (c : hcase) : hmodel :=
   let cf := h_cfg c in
   if h_rep c =? 0 then
@@ -175,8 +176,7 @@ Definition model_hist (c : hcase) : hmodel :=
     | (t0, f) :: rest =>
         match rx cf orc_c02 [] t0 f with
         | (RTcp 1 _, _) =>
-            if negb (h_span c <=? 30000) || existsb (fun tf => frame_is_tcp (snd tf)) rest
-               || negb (0 <=? c_cap cf)
+            if existsb (fun tf => frame_is_tcp (snd tf)) rest || negb (0 <=? c_cap cf)
             then mkHM true 0 (-1) [] [] (-1) (-1)
             else mkHM false 0 (-1) [] (events_of (run cf orc_c02 [] rest))
                       (Z.min (h_rep c) (c_cap cf)) (-1)
